@@ -16,15 +16,23 @@ import time
 
 import vlib
 
-KEYS = {"custom": "verif.example/k", "custom2": "verif.example/k2",
-        "wk": "topology.kubernetes.io/zone", "alias": "failure-domain.beta.kubernetes.io/zone"}
+KEYS = {"custom": "verif.example/k", "custom2": "verif.example/k2", "custom3": "verif.example/k3",
+        "wk": "topology.kubernetes.io/zone", "wk2": "topology.kubernetes.io/region",
+        "alias": "failure-domain.beta.kubernetes.io/zone"}
 # every deprecated alias -> stable key pair of the spec's AliasTable, rotated per chunk of cases
 ALIASES = [("topology.kubernetes.io/zone", "failure-domain.beta.kubernetes.io/zone"),
            ("topology.kubernetes.io/region", "failure-domain.beta.kubernetes.io/region"),
            ("kubernetes.io/arch", "beta.kubernetes.io/arch"),
            ("kubernetes.io/os", "beta.kubernetes.io/os"),
            ("node.kubernetes.io/instance-type", "beta.kubernetes.io/instance-type")]
-KEYSETS = [dict(KEYS, wk=w, alias=a) for w, a in ALIASES]
+# wk2 = a second, distinct well-known key (always written with its stable spelling)
+KEYSETS = [dict(KEYS, wk=w, alias=a, wk2=ALIASES[(i + 1) % len(ALIASES)][0]) for i, (w, a) in enumerate(ALIASES)]
+# value normalisation as a cloud provider registers it at init (v1.NormalizedLabelValues): both sources and both targets
+# are argument spellings of both universes, "a" -> "2" turns a non-integer into an integer, untranslated values remain.
+# Registered for three of the five aliased well-known keys and for one plain key; the other keys have no translation.
+VMAP = [{"from": "01", "to": "1"}, {"from": "a", "to": "2"}]
+VKEYS = ["topology.kubernetes.io/zone", "kubernetes.io/arch", "node.kubernetes.io/instance-type", "verif.example/k2"]
+REPS = 24      # repetitions of every multi-key call (Go map iteration order is random)
 BOUND_OPS = ("Gt", "Lt", "Gte", "Lte")
 
 
@@ -113,10 +121,13 @@ def cases_from_chains(chains, seed):
     cases = []
     for idx, ch in enumerate(chains):
         atoms = [atom_from_tlc(a) for a in ch]
-        kk = "custom" if (idx + seed) % 4 == 0 else "wk"
+        # bound operands must keep their integer reading under the value translation (scenario sanity)
+        for a in atoms:
+            assert not (a["op"] in BOUND_OPS and a["vals"][0] == "a")
+        kk = ("custom", "custom2")[(idx + seed) % 6] if (idx + seed) % 6 < 2 else "wk"
         if kk == "wk":
             for j, a in enumerate(atoms):
-                if (idx // 4 + j + seed) % 3 == 0:
+                if (idx // 6 + j + seed) % 3 == 0:
                     a["ka"] = "a"
         cases.append({"id": idx, "kk": kk, "atoms": atoms})
     return cases
@@ -162,7 +173,7 @@ def explorer_cases(rnd, n_chains, n_multi, id0):
 
     cases = []
     for i in range(n_chains):
-        kk = rnd.choice(["wk", "wk", "custom"])
+        kk = rnd.choice(["wk", "wk", "wk", "custom", "custom2"])
         atoms = [atom() for _ in range(rnd.randint(3, 6))]
         if kk == "wk":
             for a in atoms:
@@ -173,7 +184,7 @@ def explorer_cases(rnd, n_chains, n_multi, id0):
     for i in range(n_multi):
         def side():
             out = []
-            for kk in rnd.sample(["custom", "custom2", "wk"], rnd.randint(1, 3)):
+            for kk in rnd.sample(["custom", "custom2", "custom3", "wk", "wk2"], rnd.randint(1, 4)):
                 atoms = [atom() for _ in range(rnd.randint(1, 3))]
                 if kk == "wk":
                     for a in atoms:
@@ -185,9 +196,65 @@ def explorer_cases(rnd, n_chains, n_multi, id0):
     return universe, cases, multi
 
 
+# systematic multi-key cases: every ordered combination of per-key verdict classes over two and three keys
+def _A(op, vals=(), b=0, ka="c"):
+    return {"op": op, "vals": list(vals), "b": b, "mv": 0, "ka": ka}
+
+
+# class -> realisations (left atoms, right atoms); None = the key is undefined on that side
+KEY_CLASSES = {
+    "overlap": [([_A("In", ["1"])], [_A("In", ["1", "2"])]), ([_A("NotIn", ["1"])], [_A("Exists")]),
+                ([_A("Gt", ["0"], 0)], [_A("Lt", ["2"], 2)]), ([_A("In", ["1"])], [_A("NotIn", ["2"])]),
+                ([_A("NotIn", ["1"])], [_A("NotIn", ["2"])]), ([_A("Exists")], [_A("In", ["a"])])],
+    "disjoint": [([_A("In", ["1"])], [_A("In", ["2"])]), ([_A("Gt", ["1"], 1)], [_A("Lt", ["1"], 1)]),
+                 ([_A("In", ["1"])], [_A("NotIn", ["1"])]), ([_A("Exists")], [_A("DoesNotExist")]),
+                 ([_A("In", ["a"])], [_A("Gt", ["2"], 2)]), ([_A("DoesNotExist")], [_A("In", ["1"])])],
+    "excused": [([_A("DoesNotExist")], [_A("NotIn", ["1"])]), ([_A("NotIn", ["1"])], [_A("DoesNotExist")]),
+                ([_A("DoesNotExist")], [_A("DoesNotExist")])],
+    "undef-left": [(None, [_A("In", ["1"])]), (None, [_A("NotIn", ["1"])]), (None, [_A("DoesNotExist")]),
+                   (None, [_A("Exists")]), (None, [_A("Gt", ["0"], 0)])],
+    "undef-right": [([_A("In", ["1"])], None), ([_A("NotIn", ["1"])], None), ([_A("DoesNotExist")], None),
+                    ([_A("Lt", ["2"], 2)], None)],
+}
+KEY_KINDS = ["custom", "custom2", "custom3", "wk", "wk2"]
+
+
+def systematic_multi(seed, id0, rounds):
+    """All ordered pairs and triples of classes (25 + 125 combinations); `rounds` rotations of the realisation of each
+    class and of the key kinds carrying them.  No key carries more than one atom per side, so none of these cases falls
+    into a known-finding class."""
+    import copy
+    import itertools
+    out = []
+    classes = list(KEY_CLASSES)
+    n = 0
+    for size in (2, 3):
+        for combo in itertools.product(classes, repeat=size):
+            for r in range(rounds):
+                kinds = KEY_KINDS[(n + seed) % 5:] + KEY_KINDS[:(n + seed) % 5]
+                if (n // 5 + seed) % 2:
+                    kinds = kinds[::-1]
+                A, B = [], []
+                for pos, cls in enumerate(combo):
+                    reals = KEY_CLASSES[cls]
+                    la, ra = copy.deepcopy(reals[(n + r * 7 + pos * 3 + seed) % len(reals)])
+                    kk = kinds[pos]
+                    if kk == "wk" and (n + pos) % 2:
+                        for a in (la or []) + (ra or []):
+                            a["ka"] = "a"
+                    if la is not None:
+                        A.append({"kk": kk, "atoms": la})
+                    if ra is not None:
+                        B.append({"kk": kk, "atoms": ra})
+                out.append({"id": id0 + n, "A": A, "B": B, "classes": list(combo)})
+                n += 1
+    return out
+
+
 # ---------------------------------------------------------------------------------------------- replay + validation
-def record(run, prefix, universe, cases, multi, shards, keysets=None):
-    inp = {"universe": universe, "keys": KEYS, "keysets": keysets or KEYSETS, "cases": cases, "multi": multi, "anyDraws": 8, "chunk": 50}
+def record(run, prefix, universe, cases, multi, shards, keysets=None, vmap=None, vkeys=None):
+    inp = {"universe": universe, "keys": KEYS, "keysets": keysets or KEYSETS, "cases": cases, "multi": multi, "anyDraws": 8,
+           "chunk": 50, "vmap": VMAP if vkeys is None else vmap, "vkeys": VKEYS if vkeys is None else vkeys, "reps": REPS}
     ipath = os.path.join(run.work, prefix + "-cases.json")
     json.dump(inp, open(ipath, "w"))
     out = json.loads(run.drv("requirements-replay", ["-in", ipath, "-out", os.path.join(run.work, "traces"),
@@ -221,7 +288,8 @@ def pipeline(run, note):
     shards = 8 if run.tier == "quick" else 24
     run.build_drv()
     t3 = time.time()
-    files = record(run, "tlc", universe, cases, [], shards)
+    smulti = systematic_multi(run.seed, id0=10 ** 6, rounds=(4 if run.tier == "quick" else 12))
+    files = record(run, "tlc", universe, cases, [{k: m[k] for k in ("id", "A", "B")} for m in smulti], shards)
     rnd = random.Random(1000 + run.seed)
     nch, nmu = (4000, 3000) if run.tier == "quick" else (60000, 40000)
     xuni, xcases, xmulti = explorer_cases(rnd, nch, nmu, id0=len(cases))
@@ -244,6 +312,9 @@ def pipeline(run, note):
     run.extra_cov["tlc_enumerated_chains"] = len(cases)
     run.extra_cov["explorer_chains"] = len(xcases)
     run.extra_cov["explorer_multikey_cases"] = len(xmulti)
+    run.extra_cov["systematic_multikey_cases"] = len(smulti)
+    run.extra_cov["multikey_repetitions_per_call"] = REPS
+    run.extra_cov["value_normalisation"] = {"map": VMAP, "keys": VKEYS}
     run.extra_cov["universe_closed_model"] = [v["s"] for v in universe]
     run.extra_cov["universe_explorer_size"] = len(xuni)
     run.samples = [{"case": cases[0]}, {"case": cases[len(cases) // 2]}, {"case": xcases[0]}, {"multi": xmulti[0]}]
@@ -265,8 +336,9 @@ def replay_case(run, path):
         multi = [{"id": ev["id"], "A": ev["A"], "B": ev["B"]}]
     else:
         cases = [{"id": ev["id"], "kk": ev["kk"], "atoms": ev["atoms"]}]
-    ks = dict(KEYS, custom=cfgl["custom"], custom2=cfgl["custom2"], wk=cfgl["wk"], alias=cfgl["alias"])
-    files = record(run, "replay", cfgl["universe"], cases, multi, 1, keysets=[ks])
+    ks = dict(KEYS, custom=cfgl["custom"], custom2=cfgl["custom2"], custom3=cfgl["custom3"], wk=cfgl["wk"], wk2=cfgl["wk2"],
+              alias=cfgl["alias"])
+    files = record(run, "replay", cfgl["universe"], cases, multi, 1, keysets=[ks], vmap=cfgl["vmap"], vkeys=cfgl["vkeys"])
     run.note_case(("replay", ev["id"]))
     validate(run, files, 1)
     run.samples = [{"case": (cases or multi)[0]}]
